@@ -4,6 +4,7 @@ import Hm.C02
 import Hm.Coding
 import Hm.Inflate
 import Hm.Rhymuri
+import Hm.Text
 
 def hexDigit (n : Nat) : Char := if n < 10 then Char.ofNat (48 + n) else Char.ofNat (87 + n)
 def hex (bs : Bytes) : String := String.ofList (bs.flatMap fun b => [hexDigit (b.toNat / 16), hexDigit (b.toNat % 16)])
@@ -169,6 +170,14 @@ def step (line : String) : String :=
       | some out => s!"OK {hex out} | h={showHeaders r.1}"
       | none => s!"ERR | h={showHeaders r.1}"
     | _, _, _ => "bad-op"
+  | ["TEXT", hs, body] =>
+    match parseHeaders hs, unhex body with
+    | some hs, some body =>
+      match decodeBodyAsText hs body with
+      | .none => "NONE"
+      | .some t => "SOME " ++ hex t
+      | .unmodelled e => "UNMODELLED " ++ e
+    | _, _ => "bad-op"
   | ["URI", b] =>
     match unhex b with
     | none => "bad-op"
